@@ -14,7 +14,7 @@ import z3
 from vf.engine import runner
 from vf.engine.rulesym import SymArch, explore_fn, solver, solver_delta, validate_samples
 from vf.oracles.rules import PyLogic, Z3Logic, ambiguous_pairs, verdict
-from vf.universes import SHAPES, RuleSpec, build_rule, concrete, evaluate, random_forest, random_unrelated_spec, related, unrelated_filter_sets
+from vf.universes import SHAPES, RuleSpec, build_rule, concrete, evaluate, random_forest, random_unrelated_spec, related, side_related_filter_sets, unrelated_filter_sets
 
 PROP = "C01"
 CAPS = {"quick": 1 << 14, "thorough": 1 << 18}
@@ -41,13 +41,38 @@ def instances(tier: str) -> list[dict]:
                     for direction in ("import", "imported"):
                         out.append({"tree": tree, "naming": naming, "spec": RuleSpec("should_not", direction, False, "named", S, "named", (), True).as_json()})
 
+    def add_side_related(tree, naming, max_s, max_o, kinds=("named",), window=0):
+        # a NAMED module listed together with one of its own descendants on ONE side (subjects and objects stay
+        # unrelated to each other): every requirement is still judged per subject / per pair, so the reference
+        # semantics apply.  ('sub modules of' a module AND of its own descendant in one object list is left out: the
+        # code takes the inner parent itself as 'something else' although it is a sub module of the outer one -
+        # outside the property's strict region, recorded as an observation in DESIGN 8.4)
+        nodes = concrete(tree, naming)
+        wrnd = random.Random(runner.seed() * 7 + len(tree))
+        for sk, S, ok, O in side_related_filter_sets(nodes, max_s, max_o, kinds):
+            for verb, direction, exc in SHAPES:
+                spec = RuleSpec(verb, direction, exc, sk, S, ok, O)
+                inst = {"tree": tree, "naming": naming, "spec": spec.as_json()}
+                if window:
+                    # the tree's full relation is too large for the path budget: a window of symbolic pairs around a
+                    # seeded concrete relation (as for the larger universes below)
+                    win, bg = sensitive_window(wrnd, nodes, spec, window)
+                    inst.update({"nodes": nodes, "window": [list(p) for p in win], "background": [list(p) for p in bg]})
+                out.append(inst)
+
     if tier == "quick":
+        add_side_related("T4n", "neutral", 2, 2)
+        add_side_related("T5h", "adv", 2, 2, window=11)
         add("T4", "neutral", 2, 2)
         add("T4", "adv", 2, 2)
         add("T5a", "neutral", 1, 1)
         add("T5b", "adv", 1, 1)
         add("F4", "neutral", 2, 2, kinds=("named",))
     else:
+        for t in ("T4n", "T5b", "T5c", "T5h"):
+            add_side_related(t, "neutral", 3, 3, window=0 if t == "T4n" else 13)
+            add_side_related(t, "adv", 2, 2, window=0 if t == "T4n" else 13)
+        add_side_related("T6a", "neutral", 3, 3, window=13)
         add("F4", "neutral", 2, 2, kinds=("named",))
         add("F4", "adv", 2, 2, kinds=("named",))
         for nm in ("neutral", "adv"):
